@@ -1,5 +1,8 @@
 """C15 -- configurations are validated; thresholds normalised to one value per label."""
+import atexit
+import copy
 import itertools
+import json
 import os
 import shutil
 from numbers import Real
@@ -275,21 +278,796 @@ class ThresholdCorr(Corr):
         return d
 
 
+
+# ------------------------------------------------------------------------------------------------
+# Part 2: configuration acceptance
+# ------------------------------------------------------------------------------------------------
+TMP_ROOT = os.path.join(core.BUILD, "C15_tmp")
+ERRORS = ("ThresholdError", "TypeError", "ValueError", "KeyError", "RuntimeError", "MetricsParameterError",
+          "NotImplementedError", "AttributeError", "AssertionError")
+TASKS_3D = ("detection", "tracking", "prediction", "fp_validation")
+TASKS_2D = ("detection2d", "tracking2d", "classification2d", "fp_validation2d")
+# the keys of evaluation_config_dict: docs/en/perception/design.md tables + the two newer switches
+DOCUMENTED_KEYS = [
+    "evaluation_task", "target_labels", "ignore_attributes", "max_x_position", "max_y_position", "max_distance",
+    "min_distance", "min_point_numbers", "max_matchable_radii", "confidence_threshold", "target_uuids",
+    "label_prefix", "merge_similar_labels", "allow_matching_unknown", "count_label_number",
+    "center_distance_thresholds", "plane_distance_thresholds", "iou_2d_thresholds", "iou_3d_thresholds",
+    "matching_label_policy", "uuid_matching_first"]
+FILTER_LISTS = [("max_x_position_list", "max_x_position"), ("max_y_position_list", "max_y_position"),
+                ("max_distance_list", "max_distance"), ("min_distance_list", "min_distance"),
+                ("max_matchable_radii", "max_matchable_radii"), ("min_point_numbers", "min_point_numbers"),
+                ("confidence_threshold_list", "confidence_threshold")]
+METRIC_KEYS = ["center_distance_thresholds", "plane_distance_thresholds", "iou_2d_thresholds", "iou_3d_thresholds"]
+LABELS4 = ["car", "bicycle", "pedestrian", "motorbike"]
+
+
+def cleanup_tmp():
+    shutil.rmtree(TMP_ROOT, ignore_errors=True)
+
+
+atexit.register(cleanup_tmp)
+
+
+def base_config(task, variant="autoware"):
+    """A valid dictionary for `task` (taken from test/perception_lsim.py, perception_lsim2d.py,
+    perception_fp_validation_lsim.py)."""
+    if task in TASKS_2D and variant == "traffic_light":
+        d = {"evaluation_task": task, "target_labels": ["green", "red", "yellow", "unknown"], "max_distance": 150.0,
+             "min_distance": 0.0, "allow_matching_unknown": True, "merge_similar_labels": False,
+             "label_prefix": "traffic_light", "count_label_number": True}
+        if task in ("detection2d", "tracking2d"):
+            d.update(center_distance_thresholds=[100, 200], iou_2d_thresholds=[0.5])
+        return d
+    if task in TASKS_2D:
+        d = {"evaluation_task": task, "target_labels": list(LABELS4), "ignore_attributes": ["cycle_state.without_rider"],
+             "allow_matching_unknown": True, "merge_similar_labels": False, "label_prefix": "autoware",
+             "count_label_number": True}
+        if task in ("detection2d", "tracking2d"):
+            d.update(center_distance_thresholds=[100, 200], iou_2d_thresholds=[0.5])
+        return d
+    d = {"evaluation_task": task, "target_labels": list(LABELS4), "ignore_attributes": ["cycle_state.without_rider"],
+         "max_x_position": 102.5, "max_y_position": 100.0,
+         "center_distance_thresholds": [[1.0, 1.0, 1.0, 1.0], [2.0, 2.0, 2.0, 2.0]], "plane_distance_thresholds": [2.0, 3.0],
+         "iou_2d_thresholds": [0.5, 0.5, 0.5, 0.5], "iou_3d_thresholds": [0.5], "min_point_numbers": [0, 0, 0, 0],
+         "max_matchable_radii": 5.0, "label_prefix": "autoware", "merge_similar_labels": False,
+         "allow_matching_unknown": True}
+    if variant == "distance":
+        del d["max_x_position"], d["max_y_position"]
+        d.update(max_distance=[100.0, 90.0, 80.0, 70.0], min_distance=10.0)
+    if task == "fp_validation":
+        for k in METRIC_KEYS + ["min_point_numbers"]:
+            d.pop(k, None)
+    return d
+
+
+def base_frame(task):
+    return "base_link" if task in TASKS_3D or task in ("sensing", "foo") else "cam_front"
+
+
+CORRUPT = [5.0, "a", [], [1.0], [1.0, 2.0], [[1.0]], True, 0, [1.0, 2.0, 3.0, 4.0], [[1.0, 2.0, 3.0, 4.0]], [1.0, "a", 2.0, 3.0],
+           [[1.0], [1.0, 2.0]], "autoware", ["car", "bus"], (1.0, 2.0, 3.0, 4.0)]
+ADDITIONS = {
+    "max_x_position": 100.0, "max_y_position": [50.0], "max_distance": 100.0, "min_distance": 10.0,
+    "confidence_threshold": 0.5, "target_uuids": ["u1", "u2"], "matching_label_policy": "allow_any",
+    "count_label_number": False, "uuid_matching_first": True, "min_point_numbers": 0, "max_matchable_radii": [3.0],
+    "center_distance_thresholds": [1.0], "plane_distance_thresholds": 2.0, "iou_2d_thresholds": [[0.5]],
+    "iou_3d_thresholds": [0.25, 0.5], "ignore_attributes": ["x"], "target_labels": ["car"],
+    # unknown keys (the second is the one the repository's own tests and sample scenario pass)
+    "foo_thresholds": [0.8], "iou_bev_thresholds": [0.5],
+}
+HARMLESS_ADDITIONS = ("confidence_threshold", "target_uuids", "matching_label_policy", "count_label_number",
+                      "uuid_matching_first", "ignore_attributes")
+KEY_SPECIFIC = {
+    "evaluation_task": ["sensing", "foo", "Detection", None, 5.0, ["detection"]] + list(TASKS_3D) + list(TASKS_2D),
+    "label_prefix": ["autoware", "traffic_light", "blinker", "brake_lamp", "Autoware", None, 5.0, ["autoware"]],
+    "matching_label_policy": ["default", "ALLOW_UNKNOWN", "allow_any", "strict", "", None, 5.0, ["default"], 0],
+    "target_labels": [None, [], ["car"], ["car", "bus", "zzz"], "car", "", 5.0, [5.0], ["car", 5.0], ("car", "bus"), [[]]],
+    "merge_similar_labels": [True, None, "a"], "allow_matching_unknown": [False, None, "a"],
+    "count_label_number": [False, None], "uuid_matching_first": [True, None],
+    "ignore_attributes": [None, [], "a"], "target_uuids": [None, [], "a"],
+}
+
+
+def mutations_of(cfg):
+    """All single-key edits of a dictionary: (kind, key, value)."""
+    out = []
+    for k in cfg:
+        out.append(("delete", k, None))
+        if cfg[k] is not None:
+            out.append(("none", k, None))
+        vals = KEY_SPECIFIC.get(k, CORRUPT)
+        for v in vals:
+            if enc(v) != enc(cfg[k]) and v is not None:
+                out.append(("corrupt", k, v))
+    for k, v in ADDITIONS.items():
+        if k not in cfg:
+            out.append(("add", k, v))
+    return out
+
+
+def apply_mutation(cfg, m):
+    kind, k, v = m
+    if kind == "delete":
+        cfg.pop(k, None)
+    elif kind == "none":
+        cfg[k] = None
+    else:
+        cfg[k] = v
+
+
+def cfg_lit(items):
+    """Coq literal of an association list [(key, encoded value)]."""
+    return llit([f"({slit(k)}, {pv(v)})" for k, v in items])
+
+
+def opt_lit(j):
+    return "None" if j is None else f"(Some {pv(j)})"
+
+
+
+class Interner:
+    """Names for repeated literals: the generated case files define each distinct (key, value) entry
+    and each distinct observed value once (parsing string/number literals dominates coqc's time)."""
+
+    def __init__(self):
+        self.defs = []
+        self.names = {}
+
+    def name(self, kind, key, typ, lit):
+        k = (kind, key)
+        if k not in self.names:
+            nm = f"{kind}{len(self.names)}"
+            self.names[k] = nm
+            self.defs.append(f"Definition {nm} : {typ} := {lit()}.")
+        return self.names[k]
+
+    def entry(self, k, v):
+        return self.name("e", core.canon([k, v]), "string * pyval", lambda: f"({slit(k)}, {pv(v)})")
+
+    def value(self, v):
+        return self.name("v", core.canon(v), "pyval", lambda: pv(v))
+
+    def cfg(self, items):
+        return llit([self.entry(k, v) for k, v in items])
+
+    def opt(self, j):
+        return "None" if j is None else f"(Some {self.value(j)})"
+
+    def text(self):
+        return "\n".join(self.defs) + "\n"
+
+
+def probe_config(cfg, frame="base_link"):
+    from perception_eval.config import PerceptionEvaluationConfig
+
+    try:
+        PerceptionEvaluationConfig(["/nonexistent"], frame, os.path.join(TMP_ROOT, "r"), dict(cfg), load_raw_data=False)
+    except Exception as e:  # noqa: BLE001 - classification only
+        return type(e).__name__
+    return "accepted"
+
+
+def witness_F7():
+    d = base_config("detection")
+    d.update(max_distance=100.0, min_distance=10.0)
+    return d
+
+
+def witness_F8():
+    d = base_config("detection")
+    d["foo_thresholds"] = [0.8]
+    return d
+
+
+_SW = {}
+
+
+def switches():
+    """Defect switches (DESIGN 2.3): which variant of the model the implementation is today."""
+    if not _SW:
+        _SW["both"] = probe_config(witness_F7()) == "RuntimeError"
+        _SW["unknown"] = probe_config(witness_F8()) == "MetricsParameterError"
+    return _SW
+
+
+CONFIG_HEADER = ("From Coq Require Import String List Bool QArith.\nFrom PE Require Import Base.CaseUtil Model.PyVal Model.Threshold Model.Config.\n"
+                 "Import ListNotations.\nOpen Scope string_scope.\nOpen Scope nat_scope.\n")
+
+
+class ConfigCorr(Corr):
+    name = "config"
+    requires = ["Model/Config.vo", "Base/CaseUtil.vo"]
+    shard = 300
+
+    def __init__(self):
+        self.intern = Interner()
+
+    @property
+    def header(self):
+        return CONFIG_HEADER + self.intern.text()
+
+    def _mk(self, cfg, frame, valid=False, tag=""):
+        return {"cfg": [[k, enc(v)] for k, v in cfg.items()], "frame": frame, "valid": valid, "tag": tag}
+
+    def cases(self, tier, rng):
+        thorough = tier != "quick"
+        out = []
+        # witnesses and regression inputs first
+        out.append(self._mk(witness_F7(), "base_link", tag="F7 witness"))
+        out.append(self._mk(witness_F8(), "base_link", tag="F8 witness"))
+        cdir = os.path.join(core.ROOT, "corpus", "C15")
+        if os.path.isdir(cdir):
+            for fn in sorted(os.listdir(cdir)):
+                if fn.endswith(".json"):
+                    j = json.load(open(os.path.join(cdir, fn)))
+                    if j.get("correspondence") == self.name:
+                        out.append({"cfg": j["cfg"], "frame": j["frame"], "valid": j.get("valid", False), "tag": "corpus " + fn})
+        bases = []
+        for task in TASKS_3D:
+            bases.append((task, "xy", base_config(task)))
+            bases.append((task, "distance", base_config(task, "distance")))
+        for task in TASKS_2D:
+            bases.append((task, "autoware", base_config(task)))
+            bases.append((task, "traffic_light", base_config(task, "traffic_light")))
+        for task in ("sensing", "foo"):
+            bases.append((task, "xy", base_config(task)))
+        n_pairs = 700 if thorough else 45
+        for task, variant, b in bases:
+            frame = base_frame(task)
+            out.append(self._mk(b, frame, valid=task in TASKS_3D + TASKS_2D and task != "prediction", tag=f"base {task}/{variant}"))
+            # frame ids: count and spelling
+            for fr in (["base_link", "map"], ["cam_front", "cam_back"], "map", "cam_front", "BASE_LINK", "foo", [], ["base_link"], ["base_link", "foo"]):
+                if fr != frame:
+                    out.append(self._mk(b, fr, tag=f"frames {task}/{variant}"))
+            muts = mutations_of(b)
+            for m in muts:
+                c = copy.deepcopy(b)
+                apply_mutation(c, m)
+                ok = m[0] == "add" and m[1] in HARMLESS_ADDITIONS and task in TASKS_3D + TASKS_2D and task != "prediction"
+                out.append(self._mk(c, frame, valid=ok, tag=f"{m[0]} {m[1]} {task}/{variant}"))
+            # two keys: every pair of simple edits of the four range keys, then a sample of all other pairs
+            rk = ("max_x_position", "max_y_position", "max_distance", "min_distance")
+            rmuts = [m for m in muts if m[1] in rk and (m[0] != "corrupt" or enc(m[2]) in (5.0, "a", [1.0], [1.0, 2.0, 3.0, 4.0]))]
+            if task in TASKS_3D + ("detection2d",):
+                for i, a in enumerate(rmuts):
+                    for bb in rmuts[i + 1:]:
+                        if a[1] != bb[1]:
+                            c = copy.deepcopy(b)
+                            apply_mutation(c, a)
+                            apply_mutation(c, bb)
+                            out.append(self._mk(c, frame, tag=f"{a[0]} {a[1]} + {bb[0]} {bb[1]} {task}/{variant}"))
+            pairs = [(a, bb) for i, a in enumerate(muts) for bb in muts[i + 1:] if a[1] != bb[1]]
+            for a, bb in (pairs if len(pairs) <= n_pairs else rng.sample(pairs, n_pairs)):
+                c = copy.deepcopy(b)
+                apply_mutation(c, a)
+                apply_mutation(c, bb)
+                out.append(self._mk(c, frame if rng.random() < 0.9 else rng.choice([["base_link", "map"], "cam_front", "map"]),
+                                    tag=f"{a[0]} {a[1]} + {bb[0]} {bb[1]} {task}/{variant}"))
+        return out
+
+    def run_impl(self, case):
+        from perception_eval.config import PerceptionEvaluationConfig
+
+        cfg = {k: dec(v) for k, v in case["cfg"]}
+        frame = case["frame"]
+        support = list(PerceptionEvaluationConfig._support_tasks)
+        try:
+            c = PerceptionEvaluationConfig(["/nonexistent"], frame, os.path.join(TMP_ROOT, "r"), cfg, load_raw_data=False)
+        except Exception as e:  # noqa: BLE001
+            name = type(e).__name__
+            if name not in ERRORS:
+                raise
+            return {"error": name, "support_tasks": support}
+
+        def mc(x):
+            return None if x is None else [enc(getattr(x, k)) for k in METRIC_KEYS]
+
+        m = c.metrics_config
+        return {"ok": {"n": len(c.target_labels),
+                       "filters": [enc(c.filtering_params[name]) for name, _ in FILTER_LISTS],
+                       "det": mc(m.detection_config), "trk": mc(m.tracking_config), "cls": mc(m.classification_config),
+                       "n_frames": len(c.frame_ids),
+                       "input_unchanged": [[k, enc(v)] for k, v in cfg.items()] == case["cfg"]},
+                "support_tasks": support}
+
+    def _frames(self, case):
+        fr = case["frame"]
+        return [fr] if isinstance(fr, str) else list(fr)
+
+    def coq_term(self, case, obs):
+        sw = switches()
+        swl = f"{{| rejects_both_ranges := {blit(sw['both'])}; rejects_unknown_keys := {blit(sw['unknown'])} |}}"
+        if "error" in obs:
+            o = f"(Err {obs['error']})"
+        else:
+            ok = obs["ok"]
+
+            def ol(x):
+                return "None" if x is None else "(Some " + llit([self.intern.value(y) for y in x]) + ")"
+
+            o = ("(Ok {| o_n := %d; o_filters := %s; o_det := %s; o_trk := %s; o_cls := %s |})"
+                 % (ok["n"], llit([self.intern.opt(x) for x in ok["filters"]]), ol(ok["det"]), ol(ok["trk"]), ol(ok["cls"])))
+        return f"check_accept {swl} {self.intern.cfg(case['cfg'])} {llit([slit(f) for f in self._frames(case)])} {o}"
+
+    def coq_debug(self, case, obs):
+        sw = switches()
+        swl = f"{{| rejects_both_ranges := {blit(sw['both'])}; rejects_unknown_keys := {blit(sw['unknown'])} |}}"
+        return f"accept {swl} {cfg_lit(case['cfg'])} {llit([slit(f) for f in self._frames(case)])}"
+
+    # ---- the property, stated directly on what the implementation answered
+    def classify(self, case, obs):
+        """List of (class, message) of everything the property forbids in this answer."""
+        cfg = {k: dec(v) for k, v in case["cfg"]}
+        bad = []
+        if "ok" not in obs:
+            if case.get("valid"):
+                bad.append(("valid-rejected", f"valid configuration ({case['tag']}) rejected with {obs['error']}"))
+            return bad
+        ok = obs["ok"]
+        n = ok["n"]
+        task = cfg.get("evaluation_task")
+        if "evaluation_task" not in cfg or not isinstance(task, str) or task not in obs["support_tasks"]:
+            bad.append(("unsupported-task", f"accepted although evaluation_task={task!r} is not supported {obs['support_tasks']}"))
+        if "label_prefix" not in cfg:
+            bad.append(("mandatory", "accepted without label_prefix"))
+        if task == "detection" and cfg.get("min_point_numbers") is None:
+            bad.append(("mandatory", "detection accepted without min_point_numbers"))
+        xy = cfg.get("max_x_position") is not None and cfg.get("max_y_position") is not None
+        dist = cfg.get("max_distance") is not None and cfg.get("min_distance") is not None
+        if task in TASKS_3D + ("sensing",):
+            if not xy and not dist:
+                bad.append(("no-range", "3D task accepted with neither max_x/y_position nor max/min_distance"))
+            if ok["n_frames"] != 1:
+                bad.append(("frames", f"3D task accepted with {ok['n_frames']} frame ids"))
+        # per-label lists: exactly one real value per target label, and the documented normal form of what was given
+        if n < 1:
+            bad.append(("lists", "no target label"))
+        tl = cfg.get("target_labels")
+        if isinstance(tl, list) and tl and all(isinstance(x, str) for x in tl) and n != len(tl):
+            bad.append(("lists", f"{len(tl)} target labels given but {n} exposed"))
+        used = {"max_x_position": xy, "max_y_position": xy, "max_distance": dist and not xy, "min_distance": dist and not xy}
+        for (name, key), val in zip(FILTER_LISTS, ok["filters"]):
+            given = cfg.get(key)
+            if not used.get(key, given is not None):
+                if val is not None and key not in used:
+                    bad.append(("lists", f"{name} is {dec(val)!r} although {key} was not given"))
+                if val is not None and key in used and not (xy and dist):
+                    bad.append(("lists", f"{name} is set although its range kind was not given"))
+                continue
+            v = None if val is None else dec(val)
+            if not (isinstance(v, (list, tuple)) and len(v) == n and all(is_real(x) for x in v)):
+                bad.append(("lists", f"{name} = {v!r} is not a list of {n} real numbers (given {key}={given!r})"))
+                continue
+            if not has_tuple(enc(given)):
+                want = documented(given, n, False)
+                if want is None or not same(list(v), want):
+                    bad.append(("lists", f"{name} = {v!r} but {key}={given!r} normalises to {want!r}"))
+        for cname in ("det", "trk", "cls"):
+            if ok[cname] is None:
+                continue
+            for key, val in zip(METRIC_KEYS, ok[cname]):
+                v = dec(val)
+                given = cfg.get(key)
+                if not (isinstance(v, list) and all(isinstance(r, list) and len(r) == n and all(is_real(x) for x in r) for r in v)):
+                    bad.append(("lists", f"{cname}.{key} = {v!r}: rows are not {n} real numbers each"))
+                elif not has_tuple(enc(given)):
+                    want = documented(given, n, True) if given else []
+                    if want is None or not same(v, want):
+                        bad.append(("lists", f"{cname}.{key} = {v!r} but {given!r} normalises to {want!r}"))
+        want_cfgs = {"det": task in ("detection", "detection2d", "tracking", "tracking2d"), "trk": task in ("tracking", "tracking2d"),
+                     "cls": task == "classification2d"}
+        for cname, w in want_cfgs.items():
+            if w != (ok[cname] is not None):
+                bad.append(("metrics-config", f"{cname} config {'missing' if w else 'unexpected'} for task {task!r}"))
+        if not ok["input_unchanged"]:
+            bad.append(("mutated", "the caller's dictionary was modified"))
+        # the two recorded findings, last (so they never mask anything else)
+        if task in TASKS_3D + ("sensing",) and xy and dist:
+            bad.append(("F7", "[both range kinds given] accepted with max_x/y_position and max/min_distance all given; "
+                              "documented: RuntimeError"))
+        unknown = sorted(k for k in cfg if k not in DOCUMENTED_KEYS)
+        if unknown:
+            bad.append(("F8", f"[unknown metric parameter key] accepted with unknown key(s) {unknown}; documented: MetricsParameterError"))
+        return bad
+
+    def oracle(self, case, obs):
+        bad = self.classify(case, obs)
+        return f"PerceptionEvaluationConfig ({case['tag']}): {bad[0][1]}" if bad else None
+
+    def nontrivial(self, case, obs):
+        return True
+
+    def distribution(self, cases, obs):
+        d = {"accepted": 0, "errors": {}, "per_task": {}, "known_classes": {"F7": 0, "F8": 0}, "switches": dict(switches())}
+        for c, o in zip(cases, obs):
+            t = dict(c["cfg"]).get("evaluation_task")
+            t = t if isinstance(t, str) else "<corrupt>"
+            d["per_task"][t] = d["per_task"].get(t, 0) + 1
+            if not isinstance(o, dict) or "__harness_exception__" in o:
+                continue
+            if "ok" in o:
+                d["accepted"] += 1
+                for cls, _ in self.classify(c, o):
+                    if cls in d["known_classes"]:
+                        d["known_classes"][cls] += 1
+            else:
+                d["errors"][o["error"]] = d["errors"].get(o["error"], 0) + 1
+        cleanup_tmp()
+        return d
+
+
+# ---- CriticalObjectFilterConfig / PerceptionPassFailConfig
+CRIT_KEYS = ["max_x_position_list", "max_y_position_list", "max_distance_list", "min_distance_list", "min_point_numbers",
+             "confidence_threshold_list"]
+PF_KEYS = ["matching_threshold_list", "confidence_threshold_list"]
+LIST_VALUES = [None, [], [1.0], [1.0, 2.0, 3.0], [1.0, 2.0, 3.0, 4.0], [1.0, 2.0, 3.0, 4.0, 5.0], [1.0, "a", 2.0, 3.0], 5.0, "a", "abcd",
+               (1.0, 2.0, 3.0, 4.0), [[1.0, 2.0, 3.0, 4.0]], [True, 0, 2, 3.5], [None, None, None, None], 0, [1.0, 2.0]]
+_EVAL = {}
+
+
+def evaluator(kind):
+    if kind not in _EVAL:
+        from perception_eval.config import PerceptionEvaluationConfig
+
+        task, variant = {"3d": ("detection", "autoware"), "2d": ("detection2d", "autoware"), "tl": ("classification2d", "traffic_light")}[kind]
+        _EVAL[kind] = PerceptionEvaluationConfig(["/nonexistent"], base_frame(task), os.path.join(TMP_ROOT, "r"),
+                                                 base_config(task, variant), load_raw_data=False)
+    return _EVAL[kind]
+
+
+class FrameConfigCorr(Corr):
+    name = "frame_configs"
+    requires = ["Model/Config.vo", "Base/CaseUtil.vo"]
+    shard = 400
+
+    def __init__(self):
+        self.intern = Interner()
+
+    @property
+    def header(self):
+        return CONFIG_HEADER + self.intern.text()
+
+    def cases(self, tier, rng):
+        thorough = tier != "quick"
+        out = []
+        for kind in ("3d", "2d", "tl"):
+            labels = ["green", "red", "yellow", "unknown"] if kind == "tl" else list(LABELS4)
+            bases = [
+                {"target_labels": labels, "max_x_position_list": [100.0, 100.0, 100.0, 100.0], "max_y_position_list": [100.0, 90.0, 80.0, 70.0],
+                 "min_point_numbers": [0, 0, 0, 0]},
+                {"target_labels": labels, "max_distance_list": [100.0, 100.0, 100.0, 100.0], "min_distance_list": [0.0, 1.0, 2.0, 3.0],
+                 "confidence_threshold_list": [0.5, 0.5, 0.5, 0.5]},
+                {"target_labels": labels},
+            ]
+            for b in bases:
+                out.append({"cls": "critical", "eval": kind, "args": [[k, enc(v)] for k, v in b.items()], "valid": kind != "3d" or len(b) > 1})
+                singles = [(k, v) for k in CRIT_KEYS for v in LIST_VALUES] + \
+                          [("target_labels", v) for v in (None, [], ["car"], labels + ["bus"], "car", 5.0, [5.0])]
+                for k, v in singles:
+                    c = dict(b)
+                    c[k] = v
+                    out.append({"cls": "critical", "eval": kind, "args": [[kk, enc(vv)] for kk, vv in c.items()], "valid": False})
+                pairs = [(a, bb) for i, a in enumerate(singles) for bb in singles[i + 1:] if a[0] != bb[0]]
+                for a, bb in rng.sample(pairs, 1500 if thorough else 120):
+                    c = dict(b)
+                    c[a[0]] = a[1]
+                    c[bb[0]] = bb[1]
+                    out.append({"cls": "critical", "eval": kind, "args": [[kk, enc(vv)] for kk, vv in c.items()], "valid": False})
+            pb = {"target_labels": labels, "matching_threshold_list": [2.0, 2.0, 2.0, 2.0]}
+            out.append({"cls": "passfail", "eval": kind, "args": [[k, enc(v)] for k, v in pb.items()], "valid": True})
+            for k in PF_KEYS:
+                for v in LIST_VALUES:
+                    for tl in (labels, None, ["car"], labels + ["bus"]):
+                        c = dict(pb)
+                        c[k] = v
+                        c["target_labels"] = tl
+                        out.append({"cls": "passfail", "eval": kind, "args": [[kk, enc(vv)] for kk, vv in c.items()], "valid": False})
+        return out
+
+    def run_impl(self, case):
+        from perception_eval.evaluation.result.perception_frame_config import CriticalObjectFilterConfig, PerceptionPassFailConfig
+
+        ev = evaluator(case["eval"])
+        args = {k: dec(v) for k, v in case["args"]}
+        keys = CRIT_KEYS if case["cls"] == "critical" else PF_KEYS
+        try:
+            if case["cls"] == "critical":
+                tl = args.pop("target_labels", None)
+                c = CriticalObjectFilterConfig(ev, tl, **args)
+            else:
+                tl = args.pop("target_labels", None)
+                c = PerceptionPassFailConfig(ev, tl, **args)
+        except Exception as e:  # noqa: BLE001
+            name = type(e).__name__
+            if name not in ERRORS:
+                raise
+            return {"error": name}
+        return {"ok": {"n": len(c.target_labels), "lists": [enc(getattr(c, k)) for k in keys],
+                       "same_object": [getattr(c, k) is args.get(k) for k in keys]}}
+
+    def coq_term(self, case, obs):
+        ev = evaluator(case["eval"])
+        n_all = len(list(ev.label_converter.label_type))
+        if "error" in obs:
+            o = f"(Err {obs['error']})"
+        else:
+            o = f"(Ok ({obs['ok']['n']}, {llit([self.intern.opt(x) for x in obs['ok']['lists']])}))"
+        if case["cls"] == "critical":
+            return f"check_critical {blit(case['eval'] != '3d')} {n_all} {self.intern.cfg(case['args'])} {o}"
+        return f"check_passfail {n_all} {self.intern.cfg(case['args'])} {o}"
+
+    def coq_debug(self, case, obs):
+        ev = evaluator(case["eval"])
+        n_all = len(list(ev.label_converter.label_type))
+        if case["cls"] == "critical":
+            return f"critical_accept {blit(case['eval'] != '3d')} {n_all} {cfg_lit(case['args'])}"
+        return f"passfail_accept {n_all} {cfg_lit(case['args'])}"
+
+    def oracle(self, case, obs):
+        args = {k: dec(v) for k, v in case["args"]}
+        what = f"{'CriticalObjectFilterConfig' if case['cls'] == 'critical' else 'PerceptionPassFailConfig'}({args!r}) [{case['eval']}]"
+        if "ok" not in obs:
+            return f"{what}: valid per-frame configuration rejected with {obs['error']}" if case.get("valid") else None
+        ok = obs["ok"]
+        n = ok["n"]
+        tl = args.get("target_labels")
+        if isinstance(tl, list) and tl and all(isinstance(x, str) for x in tl) and n != len(tl):
+            return f"{what}: {len(tl)} target labels given but {n} exposed"
+        if n < 1:
+            return f"{what}: no target label"
+        keys = CRIT_KEYS if case["cls"] == "critical" else PF_KEYS
+        for k, val in zip(keys, ok["lists"]):
+            if val is None:
+                continue
+            v = dec(val)
+            if not (isinstance(v, (list, tuple, str)) and len(v) == n and all(is_real(x) for x in v)):
+                return f"{what}: accepted with {k} = {v!r}, not {n} real numbers"
+            if not same(v, args.get(k)):
+                return f"{what}: {k} = {v!r} is not the list that was given ({args.get(k)!r})"
+        if case["cls"] == "critical":
+            x, y, d, e = ok["lists"][:4]
+            if case["eval"] == "3d" and not ((x is not None and y is not None) or (d is not None and e is not None)):
+                return f"{what}: 3D task accepted without a complete range kind"
+            for k, val in zip(keys[4:], ok["lists"][4:]):
+                if args.get(k) is not None and val is None:
+                    return f"{what}: {k} was given but is not exposed"
+        else:
+            for k, val in zip(keys, ok["lists"]):
+                if args.get(k) is not None and val is None:
+                    return f"{what}: {k} was given but is not exposed"
+        return None
+
+    def nontrivial(self, case, obs):
+        return len(case["args"]) > 1
+
+    def distribution(self, cases, obs):
+        d = {"critical": 0, "passfail": 0, "accepted": 0, "errors": {}}
+        for c, o in zip(cases, obs):
+            d[c["cls"]] += 1
+            if isinstance(o, dict) and "ok" in o:
+                d["accepted"] += 1
+            elif isinstance(o, dict) and "error" in o:
+                d["errors"][o["error"]] = d["errors"].get(o["error"], 0) + 1
+        _EVAL.clear()
+        cleanup_tmp()
+        return d
+
+
+# ---- the key tables of the model against the source (own small ast extraction; the shared
+#      translator only extracts the supported-task lists)
+class KeysCorr(Corr):
+    name = "config_keys"
+    header = ("From Coq Require Import String List Bool.\nFrom PE Require Import Base.CaseUtil Base.StrUtil Model.PyVal Model.Config.\n"
+              "Import ListNotations.\nOpen Scope string_scope.\n")
+    requires = ["Model/Config.vo", "Base/CaseUtil.vo"]
+
+    def cases(self, tier, rng):
+        return [{"what": "keys"}]
+
+    def run_impl(self, case):
+        import ast
+
+        root = os.path.join(core.REPO, "perception_eval", "perception_eval")
+        read = set()
+        m_keys = None
+        for rel in ("config/perception_evaluation_config.py", "config/_evaluation_config_base.py"):
+            tree = ast.parse(open(os.path.join(root, rel)).read())
+            for node in ast.walk(tree):
+                # e_cfg.get("k"[, default]) / e_cfg["k"] / evaluation_config_dict["k"]
+                if isinstance(node, ast.Call) and isinstance(node.func, ast.Attribute) and node.func.attr == "get" \
+                        and isinstance(node.func.value, ast.Name) and node.func.value.id in ("e_cfg", "evaluation_config_dict") \
+                        and node.args and isinstance(node.args[0], ast.Constant) and isinstance(node.args[0].value, str):
+                    read.add(node.args[0].value)
+                if isinstance(node, ast.Subscript) and isinstance(node.value, ast.Name) and node.value.id in ("e_cfg", "evaluation_config_dict"):
+                    sl = node.slice
+                    if isinstance(sl, ast.Constant) and isinstance(sl.value, str):
+                        read.add(sl.value)
+                if isinstance(node, ast.AnnAssign) and isinstance(node.target, ast.Name) and node.target.id == "m_params" \
+                        and isinstance(node.value, ast.Dict):
+                    m_keys = [k.value for k in node.value.keys]
+        import inspect
+
+        from perception_eval.evaluation.metrics.config._metrics_config_base import _MetricsConfigBase
+        from perception_eval.evaluation.metrics.config.classification_metrics_config import ClassificationMetricsConfig
+        from perception_eval.evaluation.metrics.config.detection_metrics_config import DetectionMetricsConfig
+        from perception_eval.evaluation.metrics.config.tracking_metrics_config import TrackingMetricsConfig
+
+        sigs = {c.__name__: list(inspect.signature(c).parameters) for c in
+                (DetectionMetricsConfig, TrackingMetricsConfig, ClassificationMetricsConfig)}
+        src = inspect.getsource(_MetricsConfigBase.__init__)
+        return {"read": sorted(read), "m_params": m_keys, "signatures": sigs,
+                "thresholds_by_truthiness": all(f"if {k}:" in src for k in METRIC_KEYS)}
+
+    def coq_term(self, case, obs):
+        L = llit([slit(k) for k in obs["read"]])
+        M = llit([slit(k) for k in (obs["m_params"] or []) if k != "target_labels"])
+        return (f"(forallb (fun k => mem_str k {L}) read_keys && forallb (fun k => mem_str k read_keys) {L} && "
+                f"list_eqb String.eqb metric_keys {M} && {blit(obs['thresholds_by_truthiness'])})")
+
+    def coq_debug(self, case, obs):
+        return "(read_keys, metric_keys)"
+
+    def oracle(self, case, obs):
+        if obs["m_params"] is None:
+            return "m_params literal not found in _extract_params"
+        for cname, sig in obs["signatures"].items():
+            extra = [k for k in obs["m_params"] if k not in sig]
+            if extra:
+                return f"_extract_params passes {extra} which {cname} does not take"
+        und = [k for k in obs["read"] if k not in DOCUMENTED_KEYS]
+        if und:
+            return f"the constructor reads undocumented key(s) {und}"
+        return None
+
+
+# ---- get_label_threshold on normalised lists
+class LabelThresholdCorr(Corr):
+    name = "get_label_threshold"
+    header = ("From Coq Require Import String List Bool QArith.\nFrom PE Require Import Base.CaseUtil Model.PyVal Model.Threshold.\n"
+              "Import ListNotations.\nOpen Scope string_scope.\n")
+    requires = ["Model/Threshold.vo", "Base/CaseUtil.vo"]
+
+    def cases(self, tier, rng):
+        names = ["CAR", "BICYCLE", "PEDESTRIAN", "MOTORBIKE", "BUS", "UNKNOWN"]
+        out = []
+        for _ in range(1500 if tier != "quick" else 300):
+            k = rng.choice([0, 1, 2, 3, 4, 4, 5])
+            targets = [rng.choice(names) for _ in range(k)] if rng.random() < 0.4 else rng.sample(names, k)
+            r = rng.random()
+            m = k if r < 0.6 else rng.choice([0, max(k - 1, 0), k + 1])
+            th = None if rng.random() < 0.08 else [rng.randrange(0, 64) / 8 for _ in range(m)]
+            out.append({"label": rng.choice(names), "targets": None if rng.random() < 0.05 else targets, "thresholds": th})
+        return out
+
+    def run_impl(self, case):
+        from perception_eval.common.label import AutowareLabel, Label
+        from perception_eval.common.threshold import LabelThreshold, get_label_threshold
+
+        lab = Label(AutowareLabel[case["label"]], case["label"].lower())
+        targets = None if case["targets"] is None else [AutowareLabel[t] for t in case["targets"]]
+        try:
+            r = get_label_threshold(lab, targets, case["thresholds"])
+            r2 = LabelThreshold(lab, targets).get_label_threshold(case["thresholds"])
+        except IndexError:
+            return {"error": "IndexError"}
+        return {"value": r, "same_via_class": r == r2}
+
+    def coq_term(self, case, obs):
+        ts = "None" if case["targets"] is None else "(Some " + llit([slit(t) for t in case["targets"]]) + ")"
+        th = "None" if case["thresholds"] is None else "(Some " + llit([qlit(x) for x in case["thresholds"]]) + ")"
+        if "error" in obs:
+            pat = "IndexErr => true"
+        elif obs["value"] is None:
+            pat = "NoThreshold => true"
+        else:
+            pat = f"Found a => Qeqb a {qlit(obs['value'])}"
+        return (f"(match @get_label_threshold Q {slit(case['label'])} {ts} {th} with {pat} | _ => false end && "
+                f"{blit(obs.get('same_via_class', True))})")
+
+    def oracle(self, case, obs):
+        t, th = case["targets"], case["thresholds"]
+        if t is None or th is None or len(th) != len(t):
+            return None  # only lists normalised to one value per label are in the property
+        if "error" in obs:
+            return f"get_label_threshold({case['label']}, {t}, {th}) raised IndexError on a normalised list"
+        if case["label"] in t:
+            want = th[t.index(case["label"])]
+            if obs["value"] != want:
+                return f"get_label_threshold({case['label']}, {t}, {th}) = {obs['value']!r}, expected the value at the label's index {want!r}"
+        elif obs["value"] is not None:
+            return f"get_label_threshold({case['label']}, {t}, {th}) = {obs['value']!r} for a label that is not a target"
+        return None
+
+    def nontrivial(self, case, obs):
+        return bool(case["targets"]) and bool(case["thresholds"])
+
+
 class C15(Prop):
     id = "C15"
     props_file = "Props/C15.v"
-    gen_files = ["ConfigTables.v", "Enums.v"]
+    gen_files = ["ConfigTables.v", "Enums.v", "LabelTables.v"]
     design_ref = "DESIGN.md section 4, C15"
-    technique = "Rocq proof about executable models of threshold.py and of configuration acceptance; in-Coq correspondence"
-    level_text = ""
-    level_note = ""
-    rule = ""
-    assumptions = []
-    not_proved = []
+    technique = ("Rocq proof about executable Gallina models of common/threshold.py and of configuration acceptance "
+                 "(PerceptionEvaluationConfig, CriticalObjectFilterConfig, PerceptionPassFailConfig) over a Python value universe; "
+                 "supported-task list, task/frame/policy enums and label enums regenerated from the source; in-Coq correspondence")
+    level_text = ("Theorems (Props/C15.v, closed under the global context) hold for ALL Python values of the modelled universe (numbers, bool, "
+                  "str, None, arbitrarily nested lists/tuples), all numbers of labels and all dictionaries: set_thresholds accepts exactly the "
+                  "well-formed specifications and returns exactly their normal form (no padding, no truncation, non-numeric entries rejected), "
+                  "results hold one real value per label, normal forms are fixed points, scalars/singletons broadcast; an accepted "
+                  "configuration has a supported task, a range kind and one frame id for 3D, the mandatory parameters, and exposes only "
+                  "per-label lists of len(target_labels) real numbers; per-frame configurations hold only checked lists. The full acceptance "
+                  "statement is proved for the documented behaviour and refuted for today's code with the two recorded witnesses (F7, F8); "
+                  "the exact guard is proved. The models are compared with the real functions on an exhaustive family of threshold "
+                  "specifications and on every 1-key (sampled 2-key) edit of valid dictionaries for every task.")
+    level_note = ("Trusted: Coq kernel+vm_compute; translator/py_to_coq.py for Gen/*.v; the hand-written models (tied by this run's "
+                  "correspondence, incl. an ast check of the key tables); values outside the universe (numpy scalars, nan/inf, dict, objects) "
+                  "are not modelled; exception classes are modelled, messages are not. The F7/F8 'repaired' variants of the model are one "
+                  "plausible repair each; a different repair of /repo needs the model updated.")
+    rule = ("set_thresholds: witnesses, all 7 atoms, all lists of <=3 (4) atoms, [row] for all rows of <=3 (4) atoms, pairs over scalars+rows "
+            "of <=2 atoms, triples over 11 mixed elements (sampled in quick, exhaustive in thorough) + random deeper/tuple/str specs, each for "
+            "n in 0..3 (0..4) and both nest flags, plus idempotence re-run; config: F7/F8 witnesses, corpus, 18 valid bases (8 tasks x 2 "
+            "variants + 2 unsupported tasks), 9 frame-id variants, every delete/None/corrupt(15 values or key-specific)/add(19 keys) of one "
+            "key, all range-key pairs, sampled other pairs; per-frame configs: 3 evaluator configs x 3 bases x 6 keys x 16 values + pairs; "
+            "non-trivial = spec of depth >= 1 / every config case")
+    assumptions = [
+        "Python values restricted to int/float (finite), bool, str, None, list, tuple",
+        "number of target labels >= 1 for idempotence (set_target_lists never returns an empty list; C15_zero_labels states the n = 0 behaviour)",
+        "translator validated by C14/C20 correspondences; key tables validated by the config_keys correspondence of this run",
+    ]
+    not_proved = [
+        "full config_accept_sound for today's code: refuted by the two recorded witnesses (F7 both range kinds, F8 unknown key); proved for the repaired variant and as _partial/_guard_exact",
+        "documented 'Mandatory: Yes' of the four metric threshold keys is not enforced by the code and not treated as mandatory (the repository's own tests omit them)",
+        "CriticalObjectFilterConfig also accepts both range kinds (x/y wins); the property only speaks about its length checks",
+        "exception messages; log/visualization directory creation",
+    ]
 
     def correspondences(self):
-        return [ThresholdCorr()]
+        return [ThresholdCorr(), LabelThresholdCorr(), ConfigCorr(), FrameConfigCorr(), KeysCorr()]
+
+    # ---- known findings: matched by id + call site + input class, never by message text alone
+    def _known_class(self, corr_name, case, obs):
+        if corr_name != "config" or not isinstance(obs, dict) or "ok" not in obs:
+            return None
+        bad = ConfigCorr().classify(case, obs)
+        return bad[0][0] if bad else None
+
+    def known_match(self, finding, corr_name, case, obs, msg):
+        fid = finding.get("id")
+        return fid in ("F7", "F8") and self._known_class(corr_name, case, obs) == fid
+
+    def known_probe(self, finding):
+        try:
+            if finding.get("id") == "F7":
+                return probe_config(witness_F7()) == "accepted"
+            if finding.get("id") == "F8":
+                return probe_config(witness_F8()) == "accepted"
+            return False
+        finally:
+            cleanup_tmp()
+
+    def search(self, rng, budget_s):
+        """Oracle-only search that does not stop at instances of the listed findings."""
+        import time
+
+        known = [f for f in core.load_known() if f.get("property") == self.id and f.get("status") == "known"]
+        t0 = time.time()
+        try:
+            for c in self.correspondences():
+                for case in c.cases("thorough", rng):
+                    if time.time() - t0 > budget_s:
+                        return None
+                    obs = core.safe_run(c, case)
+                    if isinstance(obs, dict) and "__harness_exception__" in obs:
+                        continue
+                    msg = c.oracle(case, obs)
+                    if msg and not any(self.known_match(f, c.name, case, obs, msg) for f in known):
+                        return c, case, obs, msg
+            return None
+        finally:
+            _EVAL.clear()
+            cleanup_tmp()
 
 
-READY = False
+READY = True
 PROP = C15()
